@@ -1,6 +1,7 @@
 package main
 
 import (
+	"math"
 	"fmt"
 	"os"
 	"strconv"
@@ -387,6 +388,10 @@ func (ex *Exec) registerIntrinsics() {
 		return ret1(st, ex.constStr(st, "<num>"))
 	}
 	I["strconv.FormatFloat"] = func(ex *Exec, st *State, _ *ssa.CallCommon, a []Value) []Outcome {
+		if f, fm, pr, bs := a[0].(*Term), a[1].(*Term), a[2].(*Term), a[3].(*Term); f.IsConst() && f.kind == KFP && fm.IsConst() && pr.IsConst() && bs.IsConst() {
+			// concrete arguments: the real function
+			return ret1(st, ex.constStr(st, strconv.FormatFloat(math.Float64frombits(f.c), byte(fm.c), int(sext(pr.c, 64)), int(sext(bs.c, 64)))))
+		}
 		ex.assumes["strconv.Format* of symbolic numbers yields an opaque string"] = true
 		return ret1(st, ex.constStr(st, "<num>"))
 	}
